@@ -118,8 +118,10 @@ def oracle_fit(ctx, thorough):
         T = T @ np.diag([rng.choice([0.3, 1.0, 5.0]) for _ in range(nx)])
         X = X.copy()
         X[:, 1:1 + nx] = X[:, 1:1 + nx] @ T.T
-    Xu, Xs = pykoop.shift_episodes(X, n_inputs=nu, episode_feature=True)
-    Psi, Theta = Xu[:, 1:].T, Xs[:, 1:].T
+    X, data_form = lc.maybe_int_data(rng, X, kw, p=0.2, scale=3)     # (small scale: the SDP tolerance grows with the data scale)
+    ef = bool(kw.get('episode_feature'))
+    Xu, Xs = pykoop.shift_episodes(np.asarray(X, dtype=float), n_inputs=nu, episode_feature=ef)
+    Psi, Theta = Xu[:, (1 if ef else 0):].T, Xs[:, (1 if ef else 0):].T
     q = Psi.shape[1]
     fam = rng.choice(['edmd', 'edmd', 'dmdc'])
     reg = rng.choice(['tikhonov', 'twonorm', 'nuclear'])
@@ -133,8 +135,15 @@ def oracle_fit(ctx, thorough):
     else:
         est = lmi.LmiDmdc(alpha=lc.num(rng, alpha), ratio=lc.num(rng, ratio), reg_method=reg, square_norm=square, solver_params=dict(lc.SOLVER))
     case = {'family': fam, 'reg': reg, 'alpha': alpha, 'ratio': ratio, 'square': square, 'inv': inv if fam == 'edmd' else None,
-            'nx': nx, 'nu': nu, 'X': X.tolist(), 'replay': {'rng': snap, 'thorough': thorough}}
+            'nx': nx, 'nu': nu, 'data_form': data_form, 'X': X.tolist(), 'replay': {'rng': snap, 'thorough': thorough}}
     try:
+        if rng.random() < 0.3:
+            # an unrelated quick-look fit of ANOTHER LMI regressor with deliberately loose solver tolerances happened
+            # earlier in the process; it must not influence this one
+            loose = dict(lc.SOLVER, abs_ipm_opt_tol=1e-1, rel_ipm_opt_tol=1e-1, abs_prim_fsb_tol=1e-1, rel_prim_fsb_tol=1e-1,
+                         abs_dual_fsb_tol=1e-1, rel_dual_fsb_tol=1e-1)
+            lmi.LmiEdmd(alpha=0.1, solver_params=loose).fit(X, **kw)
+            case['history'] = 'another LmiEdmd fitted before with loose solver tolerances'
         est.fit(X, **kw)
     except Exception as ex:
         return None, case, 'fit did not complete: ' + type(ex).__name__
@@ -182,78 +191,80 @@ def run(ctx):
                        'no competitor beats the returned cost by more than 2e-5 relative (SDP tolerance)')
     ctx.assumptions = ["an 'optimal' answer is optimal up to solver tolerance", 'numeric factorisations (chol, ldl, eig, sqrt, svd) are validated (L L^T = H to 1e-8), not proved']
     ctx.proof_obligations('Properties.C12', THEOREMS)
-    la_lines, la_meta = [], []
-    for i in range(ctx.n(40, 500)):
-        s = structure_case(ctx)
-        if s is None:
-            continue
-        tag = {k: s[k] for k in ('nx', 'nu', 'q', 'alpha', 'inv')}
-        ctx.count('inv:' + s['inv'])
-        ctx.record_case(tag, True)
-        why = check_block(s)
-        if why:
-            ctx.mismatch('epigraph block: ' + why, tag, s['block'].tolist(), None)
-        nx, p = s['U'].shape
-        la_lines.append(f"obj {nx} {p} {lc.fr(Fraction(float(s['c'])))} {lc.mat_tok(s['U'])} {lc.mat_tok(s['G'])} {lc.mat_tok(s['Z'])}")
-        la_meta.append(('obj', s, tag))
-    # two-norm and nuclear blocks
-    for i in range(ctx.n(10, 100)):
-        rng = ctx.rng
-        nx, p = rng.randint(1, 3), rng.randint(1, 4)
-        import picos
-        prob = picos.Problem()
-        Uv = picos.RealVariable('U', (nx, p))
-        prob.set_objective('min', Uv[0, 0])
-        kind = rng.choice(['twonorm', 'nuclear'])
-        if kind == 'twonorm':
-            prob = lmi._add_twonorm(prob, Uv, 1.0, False, 0)
-        else:
-            prob = lmi._add_nuclear(prob, Uv, 1.0, False, 0)
-        U = lc.dyadic(rng, (nx, p))
-        Uv.value = U
-        g = rng.choice([Fraction(1, 2), Fraction(3)])
-        for name, var in prob.variables.items():
-            if name == 'U':
+    def _sec_problem_structure():
+        la_lines, la_meta = [], []
+        for i in range(ctx.n(40, 500)):
+            s = structure_case(ctx)
+            if s is None:
                 continue
-            if name == 'gamma':
-                var.value = float(g)
-            else:
-                M = lc.dyadic(rng, var.shape); M = (M + M.T) / 2
-                var.value = M
-        blocks = [b for b in lc.constraint_blocks(prob) if b[0].shape[0] == nx + p]
-        if not blocks:
-            continue
-        big = blocks[-1][0]
-        if kind == 'twonorm':
-            la_lines.append(f"twonorm {nx} {p} {lc.fr(g)} {lc.mat_tok(U)}")
-        else:
-            W1 = lc.to_np(prob.variables['W_1'].value)
-            W2 = lc.to_np(prob.variables['W_2'].value)
-            la_lines.append(f"nuclear {nx} {p} {lc.mat_tok(W1)} {lc.mat_tok(U)} {lc.mat_tok(W2)}")
-        la_meta.append((kind, big, {'kind': kind, 'nx': nx, 'p': p}))
-    # LmiDmdc base problem in SVD coordinates
-    for i in range(ctx.n(24, 300)):
-        d = dmdc_structure_case(ctx)
-        if d is None:
-            continue
-        line, big, obj_gap, tag = d
-        if abs(obj_gap) > 1e-12:
-            ctx.mismatch('LmiDmdc objective is not tr(W_hat)', tag, obj_gap, 0)
-        la_lines.append(line)
-        la_meta.append(('dmdc', big, tag))
-    for (kind, s, tag), rep in zip(la_meta, lc.la_ask(la_lines)):
-        ctx.count('structure:' + kind)
-        if kind == 'obj':
-            want = float(Fraction(rep.split()[1])) if rep.startswith('ok') else None
-            if want is None or abs(want - s['obj']) > 1e-10 * max(1.0, abs(want)):
-                ctx.mismatch('objective c - 2 tr(U G^T) + tr Z', tag, s['obj'], rep[:80])
-        else:
-            M = lc.parse_mat(rep)
-            ok = M is not None and M.shape == s.shape and (np.allclose(M, s, atol=1e-12) if kind in ('nuclear', 'dmdc') else
-                                                           (np.allclose(M, s, atol=1e-12) or np.allclose(M, s[::-1, ::-1], atol=1e-12)))
+            tag = {k: s[k] for k in ('nx', 'nu', 'q', 'alpha', 'inv')}
+            ctx.count('inv:' + s['inv'])
             ctx.record_case(tag, True)
-            if not ok:
-                ctx.mismatch(f'{kind} block', tag, s.tolist(), None if M is None else M.tolist())
+            why = check_block(s)
+            if why:
+                ctx.mismatch('epigraph block: ' + why, tag, s['block'].tolist(), None)
+            nx, p = s['U'].shape
+            la_lines.append(f"obj {nx} {p} {lc.fr(Fraction(float(s['c'])))} {lc.mat_tok(s['U'])} {lc.mat_tok(s['G'])} {lc.mat_tok(s['Z'])}")
+            la_meta.append(('obj', s, tag))
+        # two-norm and nuclear blocks
+        for i in range(ctx.n(10, 100)):
+            rng = ctx.rng
+            nx, p = rng.randint(1, 3), rng.randint(1, 4)
+            import picos
+            prob = picos.Problem()
+            Uv = picos.RealVariable('U', (nx, p))
+            prob.set_objective('min', Uv[0, 0])
+            kind = rng.choice(['twonorm', 'nuclear'])
+            if kind == 'twonorm':
+                prob = lmi._add_twonorm(prob, Uv, 1.0, False, 0)
+            else:
+                prob = lmi._add_nuclear(prob, Uv, 1.0, False, 0)
+            U = lc.dyadic(rng, (nx, p))
+            Uv.value = U
+            g = rng.choice([Fraction(1, 2), Fraction(3)])
+            for name, var in prob.variables.items():
+                if name == 'U':
+                    continue
+                if name == 'gamma':
+                    var.value = float(g)
+                else:
+                    M = lc.dyadic(rng, var.shape); M = (M + M.T) / 2
+                    var.value = M
+            blocks = [b for b in lc.constraint_blocks(prob) if b[0].shape[0] == nx + p]
+            if not blocks:
+                continue
+            big = blocks[-1][0]
+            if kind == 'twonorm':
+                la_lines.append(f"twonorm {nx} {p} {lc.fr(g)} {lc.mat_tok(U)}")
+            else:
+                W1 = lc.to_np(prob.variables['W_1'].value)
+                W2 = lc.to_np(prob.variables['W_2'].value)
+                la_lines.append(f"nuclear {nx} {p} {lc.mat_tok(W1)} {lc.mat_tok(U)} {lc.mat_tok(W2)}")
+            la_meta.append((kind, big, {'kind': kind, 'nx': nx, 'p': p}))
+        # LmiDmdc base problem in SVD coordinates
+        for i in range(ctx.n(24, 300)):
+            d = dmdc_structure_case(ctx)
+            if d is None:
+                continue
+            line, big, obj_gap, tag = d
+            if abs(obj_gap) > 1e-12:
+                ctx.mismatch('LmiDmdc objective is not tr(W_hat)', tag, obj_gap, 0)
+            la_lines.append(line)
+            la_meta.append(('dmdc', big, tag))
+        for (kind, s, tag), rep in zip(la_meta, lc.la_ask(la_lines)):
+            ctx.count('structure:' + kind)
+            if kind == 'obj':
+                want = float(Fraction(rep.split()[1])) if rep.startswith('ok') else None
+                if want is None or abs(want - s['obj']) > 1e-10 * max(1.0, abs(want)):
+                    ctx.mismatch('objective c - 2 tr(U G^T) + tr Z', tag, s['obj'], rep[:80])
+            else:
+                M = lc.parse_mat(rep)
+                ok = M is not None and M.shape == s.shape and (np.allclose(M, s, atol=1e-12) if kind in ('nuclear', 'dmdc') else
+                                                               (np.allclose(M, s, atol=1e-12) or np.allclose(M, s[::-1, ::-1], atol=1e-12)))
+                ctx.record_case(tag, True)
+                if not ok:
+                    ctx.mismatch(f'{kind} block', tag, s.tolist(), None if M is None else M.tolist())
+    ctx.attempt('problem structure', _sec_problem_structure)
     def fits(n, stop_at_first=False):
         for i in range(n):
             why, case, note = oracle_fit(ctx, ctx.tier == 'thorough')
